@@ -105,6 +105,24 @@ CLAIMS = {
               "The equations of leaves() are part of the specification, one consequence (offsets == indices without nesting) is an "
               "induction not mechanised. Not under contract: __getitem__/_get_specialisation (cache identity), Concurrent.__new__; the `except` clause "
               "does not consult __subclasscheck__ on this interpreter (measured in setup; DESIGN 6/D8) -- not decided by an obligation.", "5/C17"),
+ "C19": claim("Container: 0 <= level <= capacity and level == init + granted puts - granted gets as class invariants (ghost sums), _do_put/_do_get "
+              "grant exactly when the amount fits / is available; Store: _do_put appends at the end iff there is room, _do_get hands out the "
+              "oldest item exactly once (whole-view postconditions), content below capacity + 1; Resource: a slot is granted iff users < "
+              "capacity, release removes exactly the releasing request's slot (idempotent), users below capacity + 1; BaseResource._trigger_put/"
+              "_trigger_get (the takewhile scan, verified as the loop it is, for Container, Store and Resource/PriorityResource receivers): "
+              "exactly a prefix of the queue in queue order is granted and leaves the queue, the rest keeps its order, nothing grantable is "
+              "left at the head, the other queue and other resources' requests are untouched, and the queue object keeps its class "
+              "(representation obligation: a priority-sorted queue is never replaced by a plain list); Put/Get.__init__: the new request joins "
+              "the end of its queue, is granted in the same call iff it reaches the head and is grantable, registers the inverse trigger as its "
+              "callback; Put/Get.cancel: a pending request leaves the queue and nothing else moves, cancelling twice or after the grant changes nothing and never raises.",
+              "Assumed interfaces (usim.py.events / core are not under contract, property C18): Event.__init__, Event.succeed (marks the event "
+              "granted with its value, touches no resource state), Event.triggered, Environment.now; no class derives from both Put and Get. "
+              "Capacities and amounts are reals (float('inf') an unconstrained positive constant): 'never more than capacity' is proved as "
+              "'< capacity + 1', i.e. exact for whole-number capacities. NOT under contract (so not decided): PriorityStore and FilterStore "
+              "(_do_put/_do_get use sortedcontainers / a user filter; FilterStore's head-of-line blocking, DESIGN 12.13/D10, is a confirmed "
+              "defect that no obligation decides), PreemptiveResource._do_put (eviction, Preempted details), SortedQueue ordering itself "
+              "(sortedcontainers), Request.__exit__/release wrappers, that callbacks run within the time step (C18), ContainerPut/"
+              "StorePut/Release constructors (the typed-queue preconditions of Put/Get.__init__ are checked at no call site).", "12.13"),
  "C20": claim("Suspension counters: at least one suspension on every normal-completion path (per step for async generators) of "
               "postpone, suspend, Notification/Condition/After/Before/Moment/Instant awaits, Flag.set, Task.__await__, Scope.__await__, "
               "Queue.put/close/_await_message, Channel.put/close/__await__, Pipe.transfer, UnboundedPipe.transfer, interval, delay, Scope._await_children.",
@@ -132,7 +150,6 @@ NA = {
  "C12": "the resource classes (usim._basics.resource) and the exec-generated ResourceLevels operators are not under contract (Tracked.set is, under C08/C20); a confirmed defect of this property (D6: amounts leak when a borrower is cancelled while entering the block) is described in DESIGN 12.9 but not decided by any check",
  "C15": "Loop._run_events (quiescence, root order via Loop.__init__) is proved and reported under C01; Loop.run/StateHandler.assign (restoring the enclosing simulation), ActivityLeak reporting and usim.run(till=) are not under contract, and thread isolation rests on threading.local, outside this family",
  "C18": "the SimPy compatibility layer (usim.py.events/core) is not under contract yet",
- "C19": "the SimPy resources (usim.py.resources) are not under contract yet",
 }
 na = [{"property_id": p["id"], "reason": NA.get(p["id"], "not under contract yet")} for p in props if p["id"] not in CLAIMS]
 m = {"version": 1,
